@@ -86,7 +86,8 @@ static Plan gen_shape(u64 seed) {
             u32 sel = r.below(100);
             if (sel < 35) { f = gen_code_fault(r, *fi); if (f.a.empty()) sel = 100; }
             else if (sel < 45) { f = gen_loop_fault(r, *fi); if (f.a.empty()) sel = 100; }
-            if (sel >= 45) {
+            else if (sel < 53) { f = gen_gid_fault(r, *fi, g_pool.info[font].cps); if (f.a.empty()) sel = 100; else sel = 0; }
+            if (sel >= 53) {
                 for (int t = 0; t < 10; ++t) { f = gen_store_fault(r, *fi); if (f.kind == "BITROT" || f.kind == "SETBYTES" || f.kind == "TORN" || (f.kind == "TRUNCATE" && r.chance(1, 4))) break; }
                 if (!(f.kind == "BITROT" || f.kind == "SETBYTES" || f.kind == "TORN" || f.kind == "TRUNCATE")) continue;
                 if (r.chance(7, 10)) f.nth = -1;
@@ -165,6 +166,7 @@ static void gen_history(Rng &r, const std::string &font, std::vector<Op> &ops, u
 // ------------------------------------------------------------------------------------------ hist (C08)
 static Plan gen_hist(u64 seed) {
     Rng r(seed); Plan p; p.mode = "hist"; p.seed = seed;
+    g_pseudo_bias = 0;
     std::string font = gen_font(r);
     const FontImage *fi = g_corpus.find(font);
     Op mf = gen_make_face(r, font, 55, true, false);
@@ -174,7 +176,7 @@ static Plan gen_hist(u64 seed) {
             static const char *gt[] = {"glyf", "loca", "hmtx", "Glat", "Gloc"};
             for (int t = 0; t < 20; ++t) { f = gen_store_fault(r, *fi); bool ok = false; for (auto *g : gt) if (f.tag == g) ok = true; if (ok && (f.kind == "BITROT" || f.kind == "SETBYTES" || f.kind == "TORN")) break; f.kind.clear(); }
         } else if (r.chance(1, 3)) f = gen_code_fault(r, *fi);
-        else if (r.chance(1, 2)) f = gen_pseudo_fault(r, *fi);
+        else if (r.chance(1, 2)) { f = gen_pseudo_fault(r, *fi); if (!f.a.empty()) g_pseudo_bias = 1; }
         else { for (int t = 0; t < 10; ++t) { f = gen_store_fault(r, *fi); if (f.kind == "BITROT" || f.kind == "SETBYTES") break; f.kind.clear(); } }
         if (!f.kind.empty() && !((f.kind == "CODEROT" || f.kind == "SETBYTES") && f.a.empty())) { f.nth = -1; mf.faults.push_back(f); }
     }
@@ -184,6 +186,7 @@ static Plan gen_hist(u64 seed) {
     Op pr = gen_probe(r, font, text_max(r)); pr.s = "probe";
     if (r.chance(1, 2)) { std::vector<const Op *> withtext; for (auto &o : p.ops) if (!o.text.empty() && (o.kind == "make_seg" || o.kind == "probe_seg")) withtext.push_back(&o); if (!withtext.empty()) pr.text = withtext[r.below(u32(withtext.size()))]->text; }
     p.ops.push_back(pr); p.ops.push_back(pr); p.ops.push_back(rep);
+    g_pseudo_bias = 0;
     return p;
 }
 
